@@ -2,7 +2,7 @@
 from harness import hcommon, hprop_run, timers
 
 PROP = "C04"
-EXTRA_PROPS = ("C04b", "C04c")      # closed form: a silent peer ends the sender after exactly 2N expiries
+EXTRA_PROPS = ("C04b", "C04c", "C04d")      # closed form: a silent peer ends the sender after exactly 2N expiries
 
 
 def proj(kind, d):
